@@ -20,10 +20,10 @@ const (
 	kfEnumSetDefault  = "C22-enum-set-default-index"
 	kfIdxCommentQuote = "C22-index-comment-unescaped"
 	kfCheckTickIdent  = "C22-check-expr-backtick-ident"
-	kfVirtualChecks   = "C22-virtual-column-drops-checks"
 	kfMemberBackslash = "C22-enum-set-member-backslash"
-	kfVirtualComment  = "C22-virtual-column-drops-table-comment"
-	kfVirtualPKOrder  = "C22-virtual-column-pk-order"
+	// one root cause (SHOW CREATE TABLE does not look through the VirtualColumnTable wrapper),
+	// three symptoms: CHECK constraints, table comment and primary-key column order are lost
+	kfVirtual = "C22-virtual-column-show-create-incomplete"
 )
 
 var parentSetup = []string{
@@ -220,14 +220,8 @@ func tableSignatures(td *tableDef) []string {
 			break
 		}
 	}
-	if td.hasVirtual() && td.hasChecks() {
-		ids = append(ids, kfVirtualChecks)
-	}
-	if td.hasVirtual() && td.pkOutOfOrder() {
-		ids = append(ids, kfVirtualPKOrder)
-	}
-	if td.hasVirtual() && td.Comment != "" {
-		ids = append(ids, kfVirtualComment)
+	if td.hasVirtual() && (td.hasChecks() || td.pkOutOfOrder() || td.Comment != "") {
+		ids = append(ids, kfVirtual)
 	}
 	for i := range td.Cols {
 		if strings.Contains(strings.Join(td.Cols[i].T.Members, ""), `\`) {
@@ -273,10 +267,10 @@ func TestC22(t *testing.T) {
 		noEnumSetDefault:  kf.Listed(kfEnumSetDefault),
 		noIdxCommentQuote: kf.Listed(kfIdxCommentQuote),
 		noCheckTickIdent:  kf.Listed(kfCheckTickIdent),
-		noVirtualChecks:   kf.Listed(kfVirtualChecks),
+		noVirtualChecks:   kf.Listed(kfVirtual),
 		noMemberBackslash: kf.Listed(kfMemberBackslash),
-		noVirtualComment:  kf.Listed(kfVirtualComment),
-		noVirtualPKOrder:  kf.Listed(kfVirtualPKOrder),
+		noVirtualComment:  kf.Listed(kfVirtual),
+		noVirtualPKOrder:  kf.Listed(kfVirtual),
 		exclude:           st.Excluded,
 	}
 	rapid.Check(t, func(rt *rapid.T) {
